@@ -255,7 +255,7 @@ Fixpoint nthcdr_nat (n : nat) (l : sx) : res sx :=
 (* the counted loop only ever takes as many steps as the list is long *)
 Definition nthcdr (n : Z) (l : sx) : res sx :=
   if n <=? 0 then Ok l
-  else nthcdr_nat (Nat.min (Z.to_nat n) (S (List.length (items l)))) l.
+  else nthcdr_nat (Z.to_nat (Z.min n (Z.of_nat (S (List.length (items l)))))) l.
 
 Definition nth (n : Z) (l : sx) : res sx :=
   match nthcdr n l with Ok x => car_of x | e => e end.
@@ -279,15 +279,19 @@ Fixpoint plist_get (pl : sx) (prop : sx) : res sx :=
   match pl with
   | Nil => Ok Nil
   | Cons k rest =>
-      if sym_eq k prop || (null k && null prop) then
-        match rest with
-        | Cons v _ => Ok v | Nil => Ok Nil | _ => Err EType
-        end
-      else match rest with
-           | Cons _ rest2 => plist_get rest2 prop
-           | Nil => Ok Nil
-           | _ => Err EType
-           end
+      match eq_model k prop with
+      | None => Err ENotImpl               (* identity of two heap values: outside the pure model *)
+      | Some true =>
+          match rest with
+          | Cons v _ => Ok v | Nil => Ok Nil | _ => Err EType
+          end
+      | Some false =>
+          match rest with
+          | Cons _ rest2 => plist_get rest2 prop
+          | Nil => Ok Nil
+          | _ => Err EType
+          end
+      end
   | _ => Err EType
   end.
 
@@ -1420,6 +1424,7 @@ Definition apply_prim (p : prim) (args : sx) : M sx :=
       | _ => fail EType
       end
   | PProbe => ret Nil
+  | PHostBox => ret (Any None)
   | PHostAdd =>
       '(a, r1) <- req args ;; x <- lift (as_int a) ;;
       '(b, _) <- req r1 ;; y <- lift (as_int b) ;;
